@@ -184,15 +184,18 @@ def parse_events(ans):
 def edits(rng, name, n):
     out = set()
     palette = b"0123456789sdSDxc.h/ aA-+~\x00\xff\xc3_"
-    while len(out) < n:
+    for attempt in range(20 * n):
+        if len(out) >= n:
+            break
         b = bytearray(name)
-        k = rng.randrange(3)
-        if k == 0 and len(b) > 1:
-            del b[rng.randrange(len(b))]
-        elif k == 1:
-            b.insert(rng.randrange(len(b) + 1), rng.choice(palette))
-        else:
-            b[rng.randrange(len(b))] = rng.choice(palette)
+        for _ in range(1 if attempt < 4 * n else rng.randrange(1, 4)):      # one edit first, then up to three
+            k = rng.randrange(3)
+            if k == 0 and len(b) > 1:
+                del b[rng.randrange(len(b))]
+            elif k == 1:
+                b.insert(rng.randrange(len(b) + 1), rng.choice(palette))
+            else:
+                b[rng.randrange(len(b))] = rng.choice(palette)
         b = bytes(b)
         if b and b"/" not in b and b"\x00" not in b and b not in (b".", b".."):
             out.add(b)
@@ -890,7 +893,7 @@ def run(tier):
         corr_clean(chk, exes, d, 1500 if quick else 12000, broken)
         corr_implnames(chk, exes, d, 300 if quick else 6000, broken)
         corr_paths(chk, exes, d, 1500 if quick else 12000, broken)
-        budget = 50 if quick else 600
+        budget = 40 if quick else 480
         n = corr_runs(chk, exes, d, 400 if quick else 4000, broken, time.time() + budget)
         chk.coverage["traces_validated_against_impl"] = n if ok else 0
         if not ok:
@@ -946,6 +949,7 @@ def replay(path):
         rc, err, calls = fo.run_traced(exes[r.get("variant", "w2c2_lg1")], argv, os.path.join(root, b"inv"), os.path.join(d, "trace.txt"))
         after = fo.snapshot(root)
         bad, through = judge_property(case, root, before, after, links)
+        bad += judge_syscalls(case, root, calls)[0]
         created, deleted, modified = fo.diff(before, after)
     print("replay:", r["command_line"])
     print(" exit", rc, "| created", sorted(created), "| modified", sorted(modified), "| deleted", sorted(deleted))
